@@ -852,6 +852,21 @@ pub fn m_replay_radix_literal() {
         let got = match res.ast.deref() { SmartCalcAstType::Item(it) => it.get_underlying_number(), _ => f64::NAN };
         assert!(got == value);
     }
+    // whatever the line evaluated to: a based number prints as a literal that reads back as that same number
+    if let Some(line) = r.lines[0].as_ref() {
+        if let Ok(res) = line.result.as_ref() {
+            if let SmartCalcAstType::Item(it) = res.ast.deref() {
+                if it.type_name() == "NUMBER" && (res.output.starts_with("0x") || res.output.starts_with("0o") || res.output.starts_with("0b")) {
+                    let got = it.get_underlying_number();
+                    let back = calc.execute("en", res.output.clone());
+                    let line2 = back.lines[0].as_ref().expect("the printed literal gives a line");
+                    let res2 = line2.result.as_ref().expect("the printed literal evaluates");
+                    let got2 = match res2.ast.deref() { SmartCalcAstType::Item(it) => it.get_underlying_number(), _ => f64::NAN };
+                    assert!(got2 == got);
+                }
+            }
+        }
+    }
 }
 #[cfg(kani)]
 pub fn m_replay_radix_literal() {}
@@ -933,3 +948,67 @@ pub fn m_replay_date_print() {
 }
 #[cfg(kani)]
 pub fn m_replay_date_print() {}
+
+/// the printed date-time natively: (second of the day, zone offset in minutes): an instant in a zone prints exactly
+/// like the wall-clock date-time it denotes there, also next to the New Year of the running year
+#[cfg(not(kani))]
+pub fn m_replay_datetime_print() {
+    use chrono::Datelike;
+    let tod: u32 = vany(); let off: i32 = vany();
+    vassume(tod < 86400 && off >= -12 * 60 && off <= 14 * 60);
+    let cfg = real_config();
+    let s = Session::new();
+    let y = chrono::Utc::now().year();
+    for (yy, m, d) in [(y, 12, 31), (y, 1, 1), (y - 1, 12, 31), (y + 1, 1, 1), (y, 6, 15), (2001, 3, 4)].iter() {
+        let day = NaiveDate::from_ymd_opt(*yy, *m, *d).unwrap();
+        for t in [tod, 1800, 86399 - 1800, 0].iter() {
+            let instant = day.and_hms_opt(t / 3600, (t / 60) % 60, t % 60).unwrap();
+            let wall = instant + chrono::Duration::minutes(off as i64);
+            let out = crate::compiler::date_time::DateTimeItem(instant, crate::types::TimeOffset { name: "ZZZ".to_string(), offset: off }).print(&cfg, &s);
+            let reference = crate::compiler::date_time::DateTimeItem(wall, crate::types::TimeOffset { name: "ZZZ".to_string(), offset: 0 }).print(&cfg, &s);
+            assert!(out == reference);
+        }
+    }
+}
+#[cfg(kani)]
+pub fn m_replay_datetime_print() {}
+
+/// add_token_location natively: (number of recognised tokens, their spans, the new span): a span that starts or ends
+/// inside a recognised token is refused, one on free characters is recorded; and end to end: a sign glued to a based literal
+#[cfg(not(kani))]
+pub fn m_replay_token_location() {
+    let k: u8 = vany();
+    vassume(k <= 3);
+    let cfg = blank_config();
+    let s = Session::new();
+    let mut tk = mk_tokinizer(&cfg, &s);
+    let mut spans: Vec<(usize, usize)> = Vec::new();
+    let mut i = 0u8;
+    while i < k {
+        let a: u16 = vany(); let b: u16 = vany();
+        vassume(a < b);
+        spans.push((a as usize, b as usize));
+        tk.token_infos.push(mk_info(a as usize, b as usize, None));
+        i += 1;
+    }
+    let start: u16 = vany(); let end: u16 = vany();
+    vassume(start < end);
+    let (start, end) = (start as usize, end as usize);
+    let before = tk.token_infos.len();
+    let took = tk.add_token_location(start, end, Some(TokenType::Operator('-')), "-".to_string());
+    assert!(took == (tk.token_infos.len() == before + 1));
+    let partial = spans.iter().any(|(a, b)| (*a <= start && start < *b) || (*a < end && end <= *b));
+    let disjoint = spans.iter().all(|(a, b)| end <= *a || *b <= start);
+    if partial { assert!(!took); }
+    if disjoint { assert!(took); }
+    let calc = crate::SmartCalc::default();
+    for (line, want) in [("0x20-0x10", 16.0), ("0b111-0b1", 6.0), ("5 -0x1", 4.0), ("20-10", 10.0)].iter() {
+        let r = calc.execute("en", line.to_string());
+        let l = r.lines[0].as_ref().expect("a result line");
+        let res = l.result.as_ref().expect("evaluates");
+        let got = match res.ast.deref() { SmartCalcAstType::Item(it) => it.get_underlying_number(), _ => f64::NAN };
+        assert!(got == *want);
+    }
+}
+#[cfg(kani)]
+pub fn m_replay_token_location() {}
